@@ -250,6 +250,49 @@ def _record_order(rng, roots):
     return pairs
 
 
+_DER_PROVIDER: list = []
+
+
+def der_signature_provider() -> str:
+    """Registers (once) a signature provider of the kind an HSM or a signing server plug-in is: it holds the private key and
+    hands back ECDSA signatures DER encoded (what OpenSSL-style back ends produce).  The image carries r||s all the same -
+    that is the documented contract of SignatureProvider.get_signature().  Returns the provider's type name."""
+    if not _DER_PROVIDER:
+        from spsdk.crypto.keys import PrivateKey, PrivateKeyEcc, PublicKey
+        from spsdk.crypto.signature_provider import SignatureProvider
+
+        class VerifDerSignatureProvider(SignatureProvider):
+            identifier = "verif_der"
+
+            def __init__(self, file_path: str, **kwargs) -> None:  # pylint: disable=unused-argument
+                self.private_key = PrivateKey.load(file_path)
+
+            @property
+            def signature_length(self) -> int:
+                return self.private_key.signature_size
+
+            def verify_public_key(self, public_key: PublicKey) -> bool:
+                return self.private_key.verify_public_key(public_key)
+
+            def sign(self, data: bytes) -> bytes:
+                if isinstance(self.private_key, PrivateKeyEcc):
+                    return self.private_key.sign(data, der_format=True)
+                return self.private_key.sign(data)
+
+        _DER_PROVIDER.append(VerifDerSignatureProvider)
+    return "verif_der"
+
+
+def _sign_with(rng, cfg, signer, ecc: bool) -> None:
+    """signPrivateKey, or (a fifth of the ECC cases) a plug-in style provider that returns DER signatures."""
+    path = pki.path(signer, "priv", "pem")
+    if ecc and rng.random() < 0.2:
+        cfg.pop("signPrivateKey", None)
+        cfg["signProvider"] = f"type={der_signature_provider()};file_path={path}"
+    else:
+        cfg["signPrivateKey"] = path
+
+
 def _dump_yaml(path: str, cfg: dict):
     import yaml  # PyYAML, as used by spsdk itself
 
@@ -678,7 +721,7 @@ def build(family: str, info: dict, rng, workdir: str, tier: str = "quick", want:
         cb = os.path.join(d, "cert_block_v21.yaml")
         _dump_yaml(cb, y)
         cfg["certBlock"] = cb
-        cfg["signPrivateKey"] = pki.path(signer, "priv", "pem")
+        _sign_with(rng, cfg, signer, True)
         b.cert, b.sign_key = spec_, signer
         sig.append(f"v21-{spec_['curve']}-r{len(spec_['roots'])}u{spec_['used']}-isk{spec_.get('isk_curve', 0)}-ud{len(spec_['user_data'])}")
         if "addManifestDigest" in props or "manifestDigestHashAlgorithm" in props:
